@@ -62,6 +62,7 @@ func wfSpace(c *harness.Ctx) *envSpaces {
 			gen.EnvSpace{Names: []string{"A", "A"}, Bodies: gen.Annotated(gen.Types(0, o), anns[:2]), N: 2},
 			// alias and recursion graphs over three names (every function {A,B,C} -> small bodies)
 			gen.EnvSpace{Names: []string{"A", "B", "C"}, Bodies: aliasBodies(), N: 3},
+			modeGraph4(),
 			// every one of the 32 shift forms under every annotation
 			gen.EnvSpace{Names: []string{"A"}, Bodies: gen.Annotated(gen.Types(1, gen.TypeOpts{Shifts: gen.AllShifts()}), anns), N: 1},
 		)
@@ -86,6 +87,8 @@ func wfSpace(c *harness.Ctx) *envSpaces {
 			gen.EnvSpace{Names: []string{"A", "B", "C"}, Bodies: b3, N: 3},
 			gen.EnvSpace{Names: []string{"A"}, Bodies: b2, N: 1},
 			gen.EnvSpace{Names: []string{"A", "A"}, Bodies: gen.Annotated(gen.Types(0, o), anns[:2]), N: 2},
+			gen.EnvSpace{Names: []string{"A", "B", "C"}, Bodies: aliasBodies(), N: 3},
+			modeGraph4(),
 		)
 	}
 	spaceCache[k] = s
@@ -116,6 +119,29 @@ func aliasBodies() []ref.AnnTy {
 	return out
 }
 
+// modeGraph4: four definitions A, B, C, D where A, B, C range over lin 1, +{l:X}, +{l:X, r:Y} (X, Y among
+// A, B, C) and D is an alias of one of them: mode propagation through mutually recursive definitions
+// with a later reference (all declaration orders are tried by C16).
+func modeGraph4() gen.EnvSpace {
+	names := []string{"A", "B", "C"}
+	var first []ref.AnnTy
+	first = append(first, ref.AnnTy{Ann: ref.MLin, T: ref.Unit()})
+	for _, n := range names {
+		first = append(first, ref.AnnTy{T: ref.Plus(ref.Branch{Label: "l", T: ref.Name(n)})})
+	}
+	for _, n := range names {
+		for _, m := range names {
+			first = append(first, ref.AnnTy{T: ref.Plus(ref.Branch{Label: "l", T: ref.Name(n)}, ref.Branch{Label: "r", T: ref.Name(m)})})
+		}
+	}
+	var last []ref.AnnTy
+	for _, n := range names {
+		last = append(last, ref.AnnTy{T: ref.Name(n)})
+		last = append(last, ref.AnnTy{T: ref.Tensor(ref.Unit(), ref.Name(n))})
+	}
+	return gen.EnvSpace{Names: []string{"A", "B", "C", "D"}, BodiesAt: [][]ref.AnnTy{first, first, first, last}, N: 4}
+}
+
 func chunks(n int) int { return (n + envChunk - 1) / envChunk }
 
 // envProgram renders the definitions plus one identity function per distinct defined name,
@@ -138,7 +164,7 @@ func init() {
 	// ---------------- C10 ----------------
 	harness.Register(&harness.Check{
 		ID: "C10", Level: "exploration",
-		Rule:        "all environments of <= 2 (quick) / <= 3 (thorough) type definitions over names A,B(,C) (plus, in both tiers, all 9261 alias/recursion/mode graphs over three names with bodies 1, lin 1, aff 1, X, +{l:X}, +{l:+{l:X}}, X * Y and all 32 shift forms under every annotation) with bodies = every type of depth <= 1 (depth <= 2 for single definitions) over 1, *, -*, +{l},+{l,r},&{..}, legal and illegal shifts, duplicated labels, each with every head annotation (none, 4 modes, an unknown mode), plus duplicated definitions; each is turned into a program (definitions + one identity function per name) and also used as annotation type of a parameter/result, of an assumed name + process, and of a typed cut; verdict of the real typechecker must equal the independent well-formedness checker R-wf; distinct_nontrivial counts distinct program texts with at least one type constructor",
+		Rule:        "all environments of <= 2 (quick) / <= 3 (thorough) type definitions over names A,B(,C) (plus, in both tiers, all 9261 alias/recursion/mode graphs over three names with bodies 1, lin 1, aff 1, X, +{l:X}, +{l:+{l:X}}, X * Y 13182 mode-propagation graphs over four names - three definitions from lin 1, +{l:X}, +{l:X,r:Y} plus a later alias or 1 * X - and all 32 shift forms under every annotation) with bodies = every type of depth <= 1 (depth <= 2 for single definitions) over 1, *, -*, +{l},+{l,r},&{..}, legal and illegal shifts, duplicated labels, each with every head annotation (none, 4 modes, an unknown mode), plus duplicated definitions; each is turned into a program (definitions + one identity function per name) and also used as annotation type of a parameter/result, of an assumed name + process, and of a typed cut; verdict of the real typechecker must equal the independent well-formedness checker R-wf; distinct_nontrivial counts distinct program texts with at least one type constructor",
 		Assumptions: []string{"R-wf (ref/types.go) is the reading of 'well-formed' used: single definition, defined names, distinct labels, no cycle of bare-name definitions, known modes, modes uniform up to shifts, legal shifts, directional mode inference (DESIGN 4.6)"},
 		Cases:       func(c *harness.Ctx) int { return chunks(wfSpace(c).total) + len(annEnvs())*len(annPool(c)) },
 		Run: func(c *harness.Ctx, idx int, r *harness.Rec) {
